@@ -373,15 +373,164 @@ def du5_formats(ctx):
                     ctx.finding('DU5', '%s/%s/count-%s' % (lang, f['duration_type'], n), 'format %r for count %s of %s does not show the count' % (f['format'], n, f['duration_type']), site='config.json languages.%s.format.duration' % lang)
                 else:
                     ctx.ok('DU5', '%s %s count=%s: %r' % (lang, f['duration_type'], n, f['format']), 'data', sample=False)
-    # duration_formatter: exact count first, then the non-numeric entry
+    du5_selection_table(ctx)
+
+
+def du5_selection_table(ctx):
+    """which configured format duration_formatter uses: the entry of the unit whose count is exactly the number, else the
+    generic (non-numeric count) entry of the unit, else the bare number - whatever the order of the table. Tabulated with E6c
+    over every format table of up to three entries (each entry: this unit or another one x count equal / another number /
+    not a number); independent of how the search is written (two loops, one loop that remembers the generic entry, find)."""
+    import itertools
+    from ..absint import Machine, Unknown, is_sym, is_ptr
+    from .. import absstr
+    from ..data import decode_fmt_template
     b = ctx.facts.one(r'^compiler::duration::DurationItem::duration_formatter$')
     ctx.fn(b)
-    loops = b.loops()
-    finds = model.deep_calls(ctx, b, r'Iterator>?::find$')        # `iter().find(exact).or_else(|| iter().find(generic))`
-    if not (len(loops) == 2 or (not loops and len(finds) == 2)):
-        ctx.finding('DU5', 'duration_formatter/loops', 'duration_formatter no longer has the two passes (exact count, then generic)', site=b.loc)
-    else:
-        ctx.ok('DU5', 'duration_formatter: exact-count pass, then generic pass', 'shape', site=b.loc)
+    tys = [str(b.locals.get(i, '')) for i in range(1, b.argc + 1)]
+    role = {}
+    for i, t in enumerate(tys, 1):
+        if t.endswith('JsonFormat'):
+            role.setdefault('format', i)
+        elif t.endswith('String') and t.startswith('&mut'):
+            role.setdefault('buffer', i)
+        elif t == '&str':
+            role.setdefault('placeholder', i)
+        elif t == 'i64':
+            role.setdefault('duration', i)
+        elif t.endswith('DurationFormatType'):
+            role.setdefault('kind', i)
+    if len(role) != 5 or b.argc != 5:
+        raise AnchorLost('duration_formatter: parameter types changed: %s' % tys)
+    adt = ctx.facts.adts.get('constants::DurationFormatType')
+    if not adt or len(adt['variants']) < 2:
+        raise AnchorLost('enum constants::DurationFormatType not found')
+    vs = adt['variants']
+
+    def walk(entries, duration):
+        def model(m, path, args, t):
+            a0 = m.deref_value(args[0]) if args else None
+            if re.search(r'ToString>::to_string$', path) and isinstance(a0, int):
+                return ('str', ['n'])
+            if re.search(r'str::<impl str>::trim(_start|_end)?$', path) and absstr.is_str(a0):
+                return a0
+            if re.search(r'str::<impl str>::parse$|FromStr>::from_str$', path) and absstr.is_str(a0):
+                x = a0[1][0] if len(a0[1]) == 1 else None
+                if isinstance(x, str) and x.startswith('num:'):
+                    return m.make_adt('core::result::Result::Ok', [int(x[4:])], [])
+                return m.make_adt('core::result::Result::Err', [('sym', 'ParseIntError')], [])
+            mm = re.search(r'Result::<.*>::(is_ok|is_err|unwrap_or_default|ok)$', path)
+            if mm and isinstance(a0, dict) and '__discr__' in a0:
+                okv = a0['__discr__'] == 0
+                if mm.group(1) == 'is_ok':
+                    return int(okv)
+                if mm.group(1) == 'is_err':
+                    return int(not okv)
+                if mm.group(1) == 'ok':
+                    return absstr.some(m, a0['0']) if okv else absstr.none(m)
+                v = a0.get('0')
+                return v if okv else (0 if not isinstance(v, tuple) or v == ('tuple', []) or is_sym(v) else v)
+            mm = re.search(r'cmp::PartialEq\b.*::(eq|ne)$', path)
+            if mm and len(args) == 2:
+                x, y = m.deref_value(args[0]), m.deref_value(args[1])
+                if isinstance(x, dict) and isinstance(y, dict) and '__discr__' in x and '__discr__' in y:
+                    same = x['__discr__'] == y['__discr__']
+                    return int(same if mm.group(1) == 'eq' else not same)
+            if re.search(r'str::<impl str>::replace$|str>::replace$', path) and len(args) == 3:
+                src, pat, w = (m.deref_value(a) for a in args)
+                if absstr.is_str(src) and absstr.is_str(pat) and absstr.is_str(w):
+                    return ('str', ['R<%s|%s|%s>' % ('+'.join(map(str, src[1])), '+'.join(map(str, pat[1])), '+'.join(map(str, w[1])))])
+            if re.search(r'fmt::rt::Argument::<.*>::new_display$', path) and args:
+                return ('fmtarg', a0)
+            if re.search(r'fmt::Arguments::<.*>::new(_v1|_const)?$', path) and args:
+                tpl = a0
+                if not (is_sym(tpl) and tpl[1].startswith('const:')):
+                    raise Unknown('format template %r' % (tpl,))
+                try:
+                    pieces = decode_fmt_template(tpl[1][6:])
+                except AnchorLost as ex:
+                    raise Unknown(str(ex))
+                vals = m.deref_value(args[1]) if len(args) > 1 else ('tuple', [])
+                vals = list(vals[1]) if isinstance(vals, tuple) and vals and vals[0] == 'tuple' else []
+                out = []
+                it = iter(vals)
+                for pc in pieces:
+                    if pc is None:
+                        v = next(it, None)
+                        v = m.deref_value(v[1]) if isinstance(v, tuple) and v and v[0] == 'fmtarg' else None
+                        if isinstance(v, int):
+                            out.append('n')
+                        elif absstr.is_str(v):
+                            out += list(v[1])
+                        else:
+                            raise Unknown('format argument %r' % (v,))
+                    elif pc:
+                        out += list(pc)
+                return ('fmt', out)
+            if re.search(r'fmt::Write::write_fmt$|fmt::Write>::write_fmt$', path) and len(args) == 2:
+                f = m.deref_value(args[1])
+                cur = m.deref_value(args[0])
+                if isinstance(f, tuple) and f and f[0] == 'fmt' and absstr.is_str(cur) and is_ptr(args[0]):
+                    absstr.write_back(m, args[0], ('str', list(cur[1]) + list(f[1])))
+                    return m.make_adt('core::result::Result::Ok', [('tuple', [])], [])
+            r = absstr.std_model(m, path, args, t)
+            if r is not NotImplemented:
+                return r
+            return NotImplemented
+        m = Machine(b, model, max_steps=6000)
+        m.enter = lambda path: bool(re.search(r'duration', path)) and 'duration_formatter' not in path
+        items = []
+        for k, (same, cnt) in enumerate(entries):
+            items.append({'__adt__': 'constants::JsonDurationFormat', '__variant__': 'JsonDurationFormat',
+                          'count': ('str', [{'E': 'num:%d' % duration, 'N': 'num:%d' % (duration + 3), 'G': 'word'}[cnt]]),
+                          'format': ('str', ['F%d' % k]),
+                          'duration_type': m.make_adt('constants::DurationFormatType::%s' % (vs[0]['name'] if same else vs[1]['name']), [], [])})
+        fmt = {'__adt__': 'constants::JsonFormat', '__variant__': 'JsonFormat', 'duration': ('vec', items)}
+        m.env[role['format']] = m.alloc(fmt, 'format')
+        m.env[role['buffer']] = m.alloc(('str', ['B']), 'buffer')
+        m.env[role['placeholder']] = ('str', ['P'])
+        m.env[role['duration']] = duration
+        m.env[role['kind']] = m.make_adt('constants::DurationFormatType::%s' % vs[0]['name'], [], [])
+        why = m.run(0)
+        if why != 'return':
+            raise Unknown('the walk ended with %s' % why)
+        out = m.deref_value(m.env['buffer'])
+        if not absstr.is_str(out):
+            raise Unknown('the buffer is %r' % (out,))
+        exact = [k for k, (same, cnt) in enumerate(entries) if same and cnt == 'E']
+        generic = [k for k, (same, cnt) in enumerate(entries) if same and cnt == 'G']
+        if exact:
+            want = ['B', 'R<F%d|P|n>' % exact[0], ' ']
+        elif generic:
+            want = ['B', 'R<F%d|P|n>' % generic[0], ' ']
+        else:
+            want = ['B', 'n', ' ']
+        return list(out[1]), want, ('exact' if exact else 'generic' if generic else 'bare')
+
+    kinds = [(s_, c) for s_ in (1, 0) for c in 'ENG']
+    n = 0
+    bad = {}
+    for size in range(0, 4):
+        for entries in itertools.product(kinds, repeat=size):
+            if sum(1 for e in entries if e == (1, 'E')) > 1 or sum(1 for e in entries if e == (1, 'G')) > 1:
+                continue                         # two entries of the same unit and count class: the statement does not say which
+            for duration in (1, 7):
+                n += 1
+                try:
+                    got, want, which = walk(entries, duration)
+                except Unknown as ex:
+                    ctx.finding('DU5', 'duration_formatter/selection/not-extractable', 'the choice of the duration format could not be tabulated (table %s): %s' % (
+                        ' '.join('%s%s' % ('T' if s_ else 'o', c) for s_, c in entries) or 'empty', ex), site=b.loc)
+                    return
+                if got != want:
+                    bad.setdefault(which, []).append((entries, duration, got, want))
+    for which, rows in sorted(bad.items()):
+        entries, duration, got, want = rows[0]
+        ctx.finding('DU5', 'duration_formatter/selection/%s' % which,
+                    'with the format table [%s] (T = this unit, o = another unit; E = count equal to the number, N = another count, G = generic) and the number %d the text written is %s; expected %s (%s entry) - %d of %d tables differ' % (
+                        ' '.join('%s%s' % ('T' if s_ else 'o', c) for s_, c in entries), duration, got, want, which, len(rows), n), site=b.loc)
+    if not bad:
+        ctx.ok('DU5', 'duration_formatter: the exact-count entry of the unit, else its generic entry, else the bare number, followed by a blank - %d format tables walked' % n, 'absint', site=b.loc)
 
 
 def du6_as_table(ctx):
